@@ -780,7 +780,8 @@ theorem C01S_call_table :
      some (["uint16ToBytes", "mc.executeRequest", "mapExceptionCodeToError"], []),
      some (["mc.encoding", "mc.writeRegisters"], []),
      some (["uint16ToBytes", "mc.executeRequest", "mapExceptionCodeToError"], [])] ∧
-    (gstmtTable.filter (fun p => hasSub p.1 "ModbusClient.")).length = 36 := by
+    -- the 36 request/response functions above + Open, Close, SetEncoding, SetUnitId, encoding
+    (gstmtTable.filter (fun p => hasSub p.1 "ModbusClient.")).length = 41 := by
   decide +kernel
 
 /-- no compound leaf is read after its base variable was assigned, on the part of the six core
